@@ -146,7 +146,8 @@ func (e *Executor) DispatchOperation(
 		tmpResponseContext := graphql.WithResponseContext(ctx, e.errorPresenter, e.recoverFunc)
 		responses := e.es.Exec(tmpResponseContext)
 		if errs := graphql.GetErrors(tmpResponseContext); errs != nil {
-			return graphql.OneShot(&graphql.Response{Errors: errs})
+			// still a response: it goes through the response interceptors like any other
+			responses = graphql.OneShot(&graphql.Response{Errors: errs})
 		}
 
 		return func(ctx context.Context) *graphql.Response {
